@@ -139,7 +139,10 @@ func (e *Engine) verifyContract(c *Contract) (res *UnitResult) {
 		res.Notes = append(res.Notes, "TRUSTED: body not verified")
 		return
 	}
-	x.runFunction(fr, st)
+	exit, _ := x.runFunction(fr, st)
+	// vacuity guard: some return is reachable under everything assumed along the way (an
+	// individual return may be legitimately dead, e.g. an error path a callee's contract excludes)
+	x.oblige(fr, "cover", "some return reachable", exit, tFalse, fn.Pos())
 	return
 }
 
@@ -150,8 +153,6 @@ func (x *Exec) atReturn(fr *Frame, st *State, vals []Term, pos token.Pos) {
 		return
 	}
 	args := append(append([]Term{}, x.rootParams...), vals...)
-	// vacuity guard: this return is reachable under the assumptions made so far
-	x.oblige(fr, "cover", "return reachable", st, tFalse, pos)
 	for i, cl := range c.Ensures {
 		if skipClause(cl, x.eng) {
 			continue // clause belongs to another property's check, or to the thorough tier only
